@@ -152,7 +152,14 @@ RoleValueClasses == {"dict_empty", "null", "str_uri", "list_empty", "int1", "tru
 RoleVerdict(t, r, c) == IF r \in RolesOf(t) THEN (IF c = "dict_empty" THEN "accept" ELSE "reject") ELSE "either"
 RoleCases == {[t |-> t, what |-> "role", i |-> 0, key |-> r, c |-> c, kind |-> "role", verdict |-> RoleVerdict(t, r, c)] :
                 t \in {"hello", "welcome"}, r \in RoleNames, c \in RoleValueClasses}
-Cases == RoleCases \cup BaseCases \cup PosCasesOk \cup KeyCases \cup LenCasesOk \cup FeatureCases \cup ReqTypeCases \cup FeatureSetCases
+\* payload-transparency form: the element at the args position is one opaque binary payload, described by the option / detail
+\* enc_algo (a string).  Nothing may follow it (wrong element count), and an enc_algo that is not a string is a wrongly typed option.
+PtTypes == {t \in TypeNames : \E i \in 1..Len(Types[t].pos) : Types[t].pos[i] = "args"}
+PtForms == {"ok", "extra_dict", "extra_list", "algo_true", "algo_int", "algo_list", "algo_bytes"}
+\* (payload followed by a dict: also readable as pass-through args + empty kwargs, see Verdict("args", "bytes"): either)
+PtVerdict(f) == IF f = "ok" THEN "accept" ELSE IF f = "extra_dict" THEN "either" ELSE "reject"
+PtCases == {[t |-> t, what |-> "pt", i |-> 0, key |-> f, c |-> "", kind |-> "pt", verdict |-> PtVerdict(f)] : t \in PtTypes, f \in PtForms}
+Cases == PtCases \cup RoleCases \cup BaseCases \cup PosCasesOk \cup KeyCases \cup LenCasesOk \cup FeatureCases \cup ReqTypeCases \cup FeatureSetCases
 
 TableSane ==
   /\ Cardinality(TypeNames) = 25 /\ Cardinality(Codes) = 25
